@@ -34,7 +34,32 @@ class PositionalModel(Model):
         return {'output': sum(F(3 ** j) * v for j, v in enumerate(vals)) + vals[0] * vals[-1]}
 
 
+class TypedModel(Model):
+    """A model that tells apart values that compare (and hash) equal: True / 1 / Fraction(1) - e.g. a one-hot encoder keyed
+    on str(value) or an isinstance check. Background rows holding such values are different inputs to the model; anything
+    that identifies imputed instances by == (a prediction cache, a set of rows) gives wrong expectations."""
+
+    def f(self, x):
+        out = F(1, 4)
+        for j, n in enumerate(self.names):
+            v = x[n]
+            bonus = F(1, 3) if isinstance(v, bool) else F(1, 5) if type(v) is int else F(0)
+            out += F(3 ** j) * v + F(2 ** j) * bonus
+        return {'output': out + x[self.names[0]] * x[self.names[-1]] * F(1, 2)}
+
+
+EQUAL_BUT_DISTINCT = (True, 1, F(1), 1, True)
+
+
+def typed_row(i, names):
+    r = row(i, names)
+    r[names[-1]] = EQUAL_BUT_DISTINCT[i]
+    return r
+
+
 def make_model(names, kind, log):
+    if kind == 'typed':
+        return TypedModel(names, 'scalar', None, log)
     return PositionalModel(names, 'scalar', None, log) if kind == 'positional' else Model(names, kind, None, log)
 
 
@@ -114,16 +139,17 @@ def make_storage(kind, r):
 
 def inc_driver(cfg):
     names = names_for(cfg['d'])
+    rw = (lambda i, nm: typed_row(i, nm)) if cfg['model'] == 'typed' else row
 
     def driver(run):
         from ixai.explainer import IncrementalSage, IncrementalPFI
         from ixai.imputer import MarginalImputer
         log = EventLog()
         model = make_model(names, cfg['model'], log)
-        loss = Loss('scalar' if cfg['model'] == 'positional' else cfg['model'], 'poly', log)
+        loss = Loss('scalar' if cfg['model'] in ('positional', 'typed') else cfg['model'], 'poly', log)
         storage = make_storage(cfg['storage'], cfg['r'])
         for i in range(cfg['r'] - 1):
-            storage.update(row(i, names), None)
+            storage.update(rw(i, names), None)
         if cfg.get('switch'):       # built with the OTHER strategy, the public attribute reassigned afterwards
             imp = MarginalImputer(model, 'product' if cfg['strategy'] == 'joint' else 'joint', storage)
             imp.sampling_strategy = cfg['strategy']
@@ -132,13 +158,13 @@ def inc_driver(cfg):
         cls = IncrementalSage if cfg['expl'] == 'sage' else IncrementalPFI
         ex = cls(model, loss, list(names), storage=storage, imputer=imp, n_inner_samples=cfg['n'],
                  dynamic_setting=True, smoothing_alpha=1)
-        ys = YS if cfg['model'] in ('scalar', 'positional') else YS_MULTI
-        ex.explain_one(row(cfg['r'] - 1, names), ys[0])            # seeds the storage: r rows now
+        ys = YS if cfg['model'] in ('scalar', 'positional', 'typed') else YS_MULTI
+        ex.explain_one(rw(cfg['r'] - 1, names), ys[0])            # seeds the storage: r rows now
         for h in range(cfg['H']):                                   # history: explained calls
-            ex.explain_one(row((cfg['r'] + h) % 5, names), ys[1 + h])
+            ex.explain_one(rw((cfg['r'] + h) % 5, names), ys[1 + h])
         hist = run.choices()
         rows = [dict(r) for r in list(storage.get_data()[0])]
-        x, y = row(4 if cfg['r'] + cfg['H'] <= 4 else 0, names), ys[3]
+        x, y = rw(4 if cfg['r'] + cfg['H'] <= 4 else 0, names), ys[3]
         ex.explain_one(dict(x), y, update_storage=False)
         return hist, rows, dict(ex.importance_values), (x, y)
     return driver
@@ -198,7 +224,7 @@ def reference_batch(cfg):
 def reference_inc(cfg, rows, x, y):
     names = names_for(cfg['d'])
     model = make_model(names, cfg['model'], EventLog())
-    loss = Loss('scalar' if cfg['model'] == 'positional' else cfg['model'], 'poly', EventLog())
+    loss = Loss('scalar' if cfg['model'] in ('positional', 'typed') else cfg['model'], 'poly', EventLog())
     strategy = 'joint' if cfg['strategy'] == 'libdefault' else cfg['strategy']
     if cfg['expl'] == 'pfi':
         base = loss.f(y, model.f(x))
@@ -230,6 +256,9 @@ def plan(tier):
                                           switch=True)))
                 tasks.append(('inc', dict(expl=expl, strategy=strategy, d=3, r=2, n=1, storage='Batch', H=0,
                                           model='positional')))
+                # background rows whose values compare equal (True / 1 / Fraction(1)) but are different model inputs
+                tasks.append(('inc', dict(expl=expl, strategy=strategy, d=2, r=3, n=2, storage='Batch', H=0,
+                                          model='typed')))
             # histories: explained calls and in-place replacements before the explanation under test
             for st, r in (('Geometric', 3), ('Interval', 2), ('Batch', 2)):
                 tasks.append(('inc', dict(expl=expl, strategy=strategy if strategy != 'libdefault' else 'joint',
